@@ -15,7 +15,10 @@ def run(ctx):
         "checked on every instance",
         "completeness of the elimination (coq/model/GF2Complete.v: gj_complete, inverse_total) is proved for every square matrix "
         "with trivial kernel, so the round-trip theorems hold for every invertible number-operator matrix; that the JW/BK "
-        "matrices read from the real mapping objects are invertible is still evaluated per instance (gj_check, n up to 10/12)",
+        "matrices read from the real mapping objects are invertible is evaluated per instance (gj_check, n up to 10/12) and, "
+        "size-independently, follows from their shape: coq/model/GF2Tri.v proves that every unit lower-triangular matrix has trivial "
+        "kernel (mappers_round_trip_at_every_size); that the JW / BK number-operator matrices have that shape is OpenFermion's "
+        "behaviour, read from the real objects up to 65 (quick) / 100 (thorough) spin orbitals and decided by vm_compute (unit_lowerb)",
         "partial: the round-trip theorems need n_qubits = n; "
         "SCBK (two dropped qubits, singular padded matrix) round trips and all matrix elements of mapped operators vs Fock "
         "space are decided by the sweep (sweep_C13.py) and the correspondence, not by a theorem",
